@@ -4,30 +4,36 @@ static void CMap__begin(struct CMap *m, struct CIt *r) { r->m = m; r->pos = 0; }
 static void CMap__end(struct CMap *m, struct CIt *r) { r->m = m; r->pos = m->len; }
 static _Bool CMap__empty(struct CMap *m) { return m->len == 0; }
 static _Bool CIt_eq(struct CIt *a, struct CIt *b) { return a->pos == b->pos; }
-#ifdef MAP_WRITEBACK
-static void scr_flush(struct CMap *m) { if (g_scr_valid) { m->kids[g_scr_pos] = *g_scr; g_scr_valid = 0; } }
+static struct CIt *CIt__op_inc(struct CIt *i) { i->pos++; return i; }
+#ifdef MAP_TRACKED
+/* Map model for the functions that MODIFY child nodes (shrink).  An array of 200-byte nodes updated at symbolic indices
+ * exhausts the solver, so the mapped objects are abstracted further: ONE entry is tracked - index g_tx, key keys[g_tx],
+ * node object *g_trk, which persists and is never moved (std::map nodes are stable) - and every other entry is
+ * unspecified: dereferencing an iterator at another index yields an arbitrary node (scratch object *g_scr, fresh at
+ * every visit) that satisfies the facts every child satisfies.  The abstraction admits more behaviours than the real
+ * map (untracked entries may change between two visits), so what is proved under it holds for the real map. */
+static struct CEnt *CIt__op_star(struct CIt *i) {
+  struct CMap *m = i->m; size_t p = i->pos;
+  __CPROVER_assert(p < m->len, "map iterator dereferenced inside the map");
+  i->cur.first.id = m->keys[p]; i->cur.first.g_rxm = nondet_bool();
+  if (p == g_tx) { i->cur.kid = g_trk; return &i->cur; }          /* the facts about the tracked child are carried by the proof */
+  __CPROVER_havoc_object(g_scr);
+  i->cur.kid = g_scr;
+  __CPROVER_assume(m->keys[p] == g_scr->m_name.id);             /* key = name of the child */
+  __CPROVER_assume(KID_FACTS(m, g_scr));                         /* liveness facts at the visited child (C13) */
+  return &i->cur;
+}
 #else
-#define scr_flush(m) ((void)0)
-#endif
-static struct CIt *CIt__op_inc(struct CIt *i) { scr_flush(i->m); i->pos++; return i; }
 /* dereferencing position pos yields the entry together with the definitional facts about that child (ENT_FACTS) and
  * the step of the folds at pos (FOLD_STEP): instances, at the visited index, of facts that hold for every index */
 static struct CEnt *CIt__op_star(struct CIt *i) {
   struct CMap *m = i->m; size_t p = i->pos;
   __CPROVER_assert(p < m->len, "map iterator dereferenced inside the map");
-  i->cur.first.id = m->keys[p]; i->cur.first.g_rxm = nondet_bool();
-#ifdef MAP_WRITEBACK
-  if (!(g_scr_valid && g_scr_pos == p)) { scr_flush(m); *g_scr = m->kids[p]; g_scr_pos = p; g_scr_valid = 1; }
-  i->cur.kid = g_scr;
-#define KID_ (*g_scr)
-#else
-  i->cur.kid = &m->kids[p];
-#define KID_ m->kids[p]
-#endif
+  i->cur.first.id = m->keys[p]; i->cur.first.g_rxm = nondet_bool(); i->cur.kid = &m->kids[p];
   /* the map invariant and the definitions of the ghost functions, at the visited child.  (Written with indexed accesses:
    * a pointer to a member inside an array element makes CBMC fall back to byte extraction from the whole array.) */
-#define C_ KID_.m_children
-  __CPROVER_assume(m->keys[p] == KID_.m_name.id);            /* key = name of the child (lookupNode inserts {name, Node(name)}) */
+#define C_ m->kids[p].m_children
+  __CPROVER_assume(m->keys[p] == m->kids[p].m_name.id);            /* key = name of the child (lookupNode inserts {name, Node(name)}) */
   __CPROVER_assume((long)C_.g_lvl == (long)m->g_lvl + 1);                      /* a child is one level deeper */
   __CPROVER_assume(!C_.g_whit || C_.g_win);                        /* WHIT(c) implies W in subtree(c) */
   __CPROVER_assume(!C_.g_isw || C_.g_win);
@@ -38,10 +44,9 @@ static struct CEnt *CIt__op_star(struct CIt *i) {
   __CPROVER_assume(m->pmax[p + 1] == MAXZ(m->pmax[p], C_.g_depth) && m->pmax[p + 1] <= m->pmax[m->len]);
   __CPROVER_assume(BEQ(m->pany[p + 1], m->pany[p] || C_.g_ex) && (!m->pany[p + 1] || m->pany[m->len]));
 #undef C_
-  __CPROVER_assume(KID_FACTS(m, &KID_));                     /* liveness facts at the visited child (C13) */
-#undef KID_
   return &i->cur;
 }
+#endif
 static struct CEnt *CIt__op_arrow(struct CIt *i) { return CIt__op_star(i); }
 static void CMap__find(struct CMap *m, struct Str *key, struct CIt *r) {
   r->m = m;
@@ -79,22 +84,21 @@ static _Bool X_any_of__CIt_CIt_closure_Node__exists_1(struct CIt b, struct CIt e
   return r;
 }
 
+#ifdef MAP_TRACKED
 /* ---- std::erase_if(std::map&, pred) with the closure of Node::shrink (C13) ----
  * The standard's effect: the predicate is evaluated for every entry; exactly the entries for which it is false remain,
- * in their order, with their mapped objects untouched (map nodes are not moved).  Stated here at ONE tracked entry
+ * in their order, with their mapped objects untouched (map nodes are not moved).  Stated here at the tracked entry
  * (ghost index instead of a quantifier), old index g_tx: an arbitrary child, the child that leads to the watched node
  * W, the liveness witness, or (CASE_FIRST) a PROPHECY of the old index of the first entry that is kept: g_tx is an
  * unconstrained input of the harness, executions in which the prophecy is wrong are discarded, and every real
- * execution agrees with exactly one value of it.  The predicate is the real lowered closure.  Entries other than the
- * tracked one are left unspecified (no clause reads them). */
+ * execution agrees with exactly one value of it.  The predicate is the real lowered closure. */
 static size_t ERASE_IF_SHRINK(struct CMap *m, struct closure_Node__shrink_1 pred) {
-  scr_flush(m);
   size_t n = m->len, ix = g_tx, nix = 0;
   _Bool in = ix < n, kept = 0;
-  struct Node save; size_t key = 0;
+  size_t key = 0;
   if (in) {
-    save = m->kids[ix]; key = m->keys[ix];
-    struct CEnt e; e.first.id = key; e.first.g_rxm = nondet_bool(); e.kid = &save;     /* the predicate does not modify the entry */
+    key = m->keys[ix];
+    struct CEnt e; e.first.id = key; e.first.g_rxm = nondet_bool(); e.kid = g_trk;
     kept = !closure_Node__shrink_1__call(&pred, &e);
   }
   size_t nl = nondet_size(); __CPROVER_assume(nl <= n);
@@ -102,12 +106,14 @@ static size_t ERASE_IF_SHRINK(struct CMap *m, struct closure_Node__shrink_1 pred
   if (in && !kept) __CPROVER_assume(nl < n);
   if (g_case == CASE_FIRST && nl > 0) __CPROVER_assume(in && kept && nix == 0);
   m->len = nl;
-  if (in && kept) { m->kids[nix] = save; m->keys[nix] = key; }
+  __CPROVER_havoc_object(m->keys);                 /* the entries move up; only the tracked one is specified */
+  if (in && kept) m->keys[nix] = key;
   g_tx_kept = in && kept; g_tx_new = nix;
-  /* ghost indices follow their entries */
+  g_tx = g_tx_kept ? nix : nl;                     /* the ghost indices follow their entries */
   size_t w = nondet_size(), l = nondet_size(); __CPROVER_assume(w <= nl && l <= nl);
-  m->g_wchild = g_case == CASE_W ? (g_tx_kept ? nix : nl) : w;
-  m->g_lchild = g_case == CASE_L ? (g_tx_kept ? nix : nl) : l;
+  m->g_wchild = g_case == CASE_W ? g_tx : w;
+  m->g_lchild = g_case == CASE_L ? g_tx : l;
   g_erase_ran = 1;
   return n - nl;
 }
+#endif
